@@ -283,6 +283,25 @@ def desugar_for_ranges(b, ordinals, g, where):
                 split = (toks[i].start, toks[i + 1].end)
                 break
             i += 1
+        mchars = re.match(r"^([A-Za-z_][A-Za-z0-9_.]*)\.chars\(\)$", rng)
+        if split is None and mchars:
+            # R28: `for c in STR.chars() { BODY }` => `{ let verif_vec_K = verif_chars(&STR); let mut verif_next_K: usize = 0;
+            # while verif_next_K < verif_vec_K.len() { let c = verif_vec_K[verif_next_K]; verif_next_K += 1; BODY } }`
+            # (verif_chars: assumed `r@ == STR@`, the characters in order; char is Copy)
+            src = mchars.group(1)
+            btoks = rustlex.lex(b)
+            bpairs = rustlex.match_brackets(btoks)
+            close = None
+            for o, c in bpairs.items():
+                if btoks[o].start == bpos:
+                    close = btoks[c].start
+            new_head = "{ let verif_vec_%d = verif_chars(&%s); let mut verif_next_%d: usize = 0;\n        while verif_next_%d < verif_vec_%d.len()\n        " % (k, src, k, k, k)
+            body_intro = " let %s = verif_vec_%d[verif_next_%d]; verif_next_%d += 1;" % (var, k, k, k)
+            b = b[:kwpos] + new_head + "{" + body_intro + b[bpos + 1:close + 1] + " }" + b[close + 1:]
+            g.rewrites.append({"item": where, "rule": "R28", "loop": k, "old": header.strip(),
+                               "new": (new_head + "{" + body_intro).strip(),
+                               "why": "for over `str::chars()` (no Verus support for the Chars iterator) -> index/while loop over the character vector (assumed: the string's characters in order)"})
+            continue
         if split is None and re.match(r"^&(mut\s+)?[A-Za-z_][A-Za-z0-9_.]*$", rng):
             # R21: `for x in &mut VEC { BODY }` => `{ let mut verif_next_K: usize = 0; while verif_next_K < VEC.len()
             # { let x = &mut VEC[verif_next_K]; verif_next_K += 1; BODY } }`  (slice::IterMut visits the elements
